@@ -6,6 +6,7 @@ import (
 	"encoding/base64"
 	"encoding/json"
 	"fmt"
+	"io"
 	"math/big"
 	"math/rand"
 	"net"
@@ -313,7 +314,16 @@ type shimClient struct {
 }
 
 func (s *shimClient) call(ep, body string, version string) (status int, respBody []byte) {
-	req := httptest.NewRequest("POST", "http://svc.example"+s.prefix+"/"+ep, strings.NewReader(body))
+	var rd io.Reader = strings.NewReader(body)
+	if atomic.AddInt64(&shimCallSeq, 1)%3 == 0 {
+		// every third call carries its body without an announced length (Transfer-Encoding: chunked: a streamed
+		// fetch body, an intermediary that re-frames)
+		rd = struct{ io.Reader }{rd}
+	}
+	req := httptest.NewRequest("POST", "http://svc.example"+s.prefix+"/"+ep, rd)
+	if req.ContentLength < 0 {
+		req.TransferEncoding = []string{"chunked"}
+	}
 	req.Host = "svc.example"
 	if version != "" {
 		req.Header.Set("X-Websocket-Shim-Version", version)
@@ -398,6 +408,8 @@ func (s *shimClient) open(b *wsBackend, label, version string) (sid string, stat
 	return r.ID, st
 }
 
+var shimCallSeq int64 // shim calls made so far (every third one is sent without Content-Length)
+
 var textSeq [2]int64 // text messages generated so far, per direction (0 = client to server, 1 = server to client)
 
 func randomMsg(rng *rand.Rand, n int, big bool, inject bool, dir int) wsMsg {
@@ -424,7 +436,11 @@ func randomMsg(rng *rand.Rand, n int, big bool, inject bool, dir int) wsMsg {
 	case 2: // JSON object with resource.headers (changed only when injection is on)
 		extra := []string{`"id":9007199254740993`, `"f":1.5`, `"e":1e3`, `"t":true,"z":null`, `"s":"<>&😀"`, `"nested":{"a":[1,2,{"b":"c"}]}`}[rng.Intn(6)]
 		hdrs := []string{`{}`, `{"X-Inject-A":"keep-me"}`, `{"Other":"v"}`}[rng.Intn(3)]
-		return wsMsg{websocket.TextMessage, []byte(fmt.Sprintf(`{"n":%d,%s,"resource":{"headers":%s,"path":"/x"}}`, n, extra, hdrs))}
+		typ := websocket.TextMessage
+		if rng.Intn(3) == 0 {
+			typ = websocket.BinaryMessage // (a JSON document may just as well travel in a binary frame: Blob / ArrayBuffer)
+		}
+		return wsMsg{typ, []byte(fmt.Sprintf(`{"n":%d,%s,"resource":{"headers":%s,"path":"/x"}}`, n, extra, hdrs))}
 	default: // JSON that does not match the injection path
 		return wsMsg{websocket.TextMessage, []byte(fmt.Sprintf(`{"n":%d,"resource":"not-an-object","k":[1,2,3]}`, n))}
 	}
@@ -893,6 +909,9 @@ func wsCallsDriver(a *Args) {
 					cN++
 					m := wsMsg{websocket.TextMessage, []byte(fmt.Sprintf("%d:cli", cN))}
 					be.mu.Lock()
+					if be.sentC[curLabel] == nil {
+						be.sentC[curLabel] = map[int]wsMsg{} // (the open call did not produce a session)
+					}
 					be.sentC[curLabel][cN] = m
 					be.mu.Unlock()
 					hx.Emit("DataBegin", "sid", sid, "from", cN, "to", cN)
